@@ -215,7 +215,7 @@ fn block(b: &mut Builder, depth: u32, protected: &mut Vec<i64>) {
 
 fn stmt(b: &mut Builder, depth: u32, protected: &mut Vec<i64>) {
     let deep = depth >= 3;
-    let w: [u32; 18] = [
+    let w: [u32; 19] = [
         8,                          // 0 add const
         3,                          // 1 clear / set
         8,                          // 2 drain with multipliers
@@ -234,6 +234,7 @@ fn stmt(b: &mut Builder, depth: u32, protected: &mut Vec<i64>) {
         if protected.is_empty() { 0 } else { 5 }, // 15 conditional write to an enclosing loop's own condition cell, then a loop on it
         3,                          // 16 conditional (input dependent) write to a cell, then use of that cell
         if deep { 0 } else { 2 },   // 17 loop on a cell that an inner if may have zeroed, with output inside
+        4,                          // 18 strided loop on (copy of a cell + constant): symbolic 2-adic trip counts, results to 1-2 cells
     ];
     match b.rng.weighted(&w) {
         0 => {
@@ -494,6 +495,51 @@ fn stmt(b: &mut Builder, depth: u32, protected: &mut Vec<i64>) {
                     let y = b.cell_not(&not2);
                     b.drain(x, &[(y, 1)], 1);
                     b.output(y);
+                }
+            }
+        }
+        18 => {
+            let x = b.cell();
+            let mut not = protected.clone();
+            not.push(x);
+            let t = b.cell_not(&not);
+            not.push(t);
+            let tmp = b.cell_not(&not);
+            not.push(tmp);
+            b.clear(t);
+            b.clear(tmp);
+            b.add_mul(t, x, 1, tmp);
+            let step = *b.rng.pick(&[3i64, 3, 5, 7, 9]);
+            let off = b.rng.range(0, 6);
+            b.add(t, off);
+            let nd = b.rng.range(1, 2);
+            let mut dsts = Vec::new();
+            for _ in 0..nd {
+                let d = b.cell_not(&not);
+                not.push(d);
+                let k = b.rng.range(1, 3);
+                dsts.push((d, k));
+            }
+            b.drain(t, &dsts, step);
+            let mut outs: Vec<i64> = dsts.iter().map(|d| d.0).collect();
+            if b.rng.chance(1, 2) {
+                // a second strided loop on another copy of the same cell with another offset and the
+                // same step: both trip counts share the product inv(step) * x
+                b.add_mul(t, x, 1, tmp);
+                let off2 = off + step * b.rng.range(1, 2);
+                b.add(t, off2);
+                let mut dsts2 = Vec::new();
+                for _ in 0..b.rng.range(1, 2) {
+                    let d = b.cell_not(&not);
+                    not.push(d);
+                    dsts2.push((d, 1));
+                }
+                b.drain(t, &dsts2, step);
+                outs.extend(dsts2.iter().map(|d| d.0));
+            }
+            for d in outs {
+                if b.rng.chance(3, 4) {
+                    b.output(d);
                 }
             }
         }
